@@ -523,6 +523,16 @@ struct SackOutcome {
     max_reported: u32,
 }
 
+/// Earliest outstanding TSN in serial-number order.
+fn earliest_outstanding_tsn(sent_queue: &BTreeMap<u32, ChunkRecord>) -> Option<u32> {
+    match (sent_queue.keys().next(), sent_queue.keys().next_back()) {
+        (Some(&first), Some(&last)) if (last.wrapping_sub(first) as i32) < 0 => {
+            sent_queue.range(0x8000_0000..).next().map(|(tsn, _)| *tsn)
+        }
+        (first, _) => first.copied(),
+    }
+}
+
 fn apply_sack_to_sent_queue(
     sent_queue: &mut BTreeMap<u32, ChunkRecord>,
     cumulative_tsn_ack: u32,
@@ -537,13 +547,7 @@ fn apply_sack_to_sent_queue(
     // The map is ordered numerically: while the outstanding TSNs straddle the 2^32 wrap its
     // first key is a TSN *after* the wrap and the earliest outstanding one (serial-number
     // order) is the first key of the upper half.
-    let earliest_outstanding = match (sent_queue.keys().next(), sent_queue.keys().next_back()) {
-        (Some(&first), Some(&last)) if (last.wrapping_sub(first) as i32) < 0 => {
-            sent_queue.range(0x8000_0000..).next().map(|(tsn, _)| *tsn)
-        }
-        (first, _) => first.copied(),
-    };
-    if let Some(lowest_tsn) = earliest_outstanding
+    if let Some(lowest_tsn) = earliest_outstanding_tsn(sent_queue)
         && (cumulative_tsn_ack.wrapping_sub(lowest_tsn.wrapping_sub(1)) as i32) < 0
     {
         // This SACK is even older than our earliest outstanding TSN,
@@ -1973,7 +1977,18 @@ impl SctpInner {
             let a_rwnd = buf.get_u32();
             let num_gap_ack_blocks = buf.get_u16();
             let _num_duplicate_tsns = buf.get_u16();
-            let old_rwnd = self.peer_rwnd.swap(a_rwnd, Ordering::SeqCst);
+            // RFC 4960 6.2.1 D i): a SACK whose cumulative ack is behind the point the
+            // peer has already confirmed is an old one (reordered or duplicated in the
+            // network); its a_rwnd describes the past and must not overwrite the
+            // current window - a stale a_rwnd=0 would silence the sender for good.
+            let cum_ack_point = earliest_outstanding_tsn(&self.sent_queue.lock())
+                .unwrap_or_else(|| self.next_tsn.load(Ordering::SeqCst))
+                .wrapping_sub(1);
+            let old_rwnd = if tsn_gt(cum_ack_point, cumulative_tsn_ack) {
+                self.peer_rwnd.load(Ordering::SeqCst)
+            } else {
+                self.peer_rwnd.swap(a_rwnd, Ordering::SeqCst)
+            };
 
             // RFC 3758 §3.5 (C4): while the peer's cumulative ack is still behind our
             // Advanced.Peer.Ack.Point the FORWARD-TSN was lost or has not arrived
